@@ -36,7 +36,8 @@ def _run_pairs(acc, pairs, shard: int, nshards: int, max_points: int) -> None:
                 if msg:
                     acc.violation(f"thread-interference:{name}{how}", f"{name}: two threads, a switch at line boundary {k} of the first call: {who} {msg}",
                                   {"pair": name, "boundary": k})
-        k0 = 2 + 3 * shard
+        # one schedule per worker, denser where lazily built tables get filled (the first lines of the first call)
+        k0 = (2, 5, 8, 11, 14, 17, 3, 6, 9, 12, 20, 24, 28, 33, 39, 46)[shard % 16] if nshards < 12 else (1, 2, 3, 4, 5, 6, 8, 10, 12, 14, 16, 19, 22, 26, 30, 35)[shard % 16]
         ra, rb, n = preempt._run_with_preemption(fa, fb, src, at=k0)
         acc.ev()
         acc.count("thread_schedules_first_use")
